@@ -14,6 +14,18 @@ sfx = "" if rnd == "1" else rnd
 wt = "/tmp/seed/wt%s-%s" % (sfx, P); out = "/tmp/seed/out%s-%s" % (sfx, P)
 patch = os.path.join(out, "patch.diff")
 def sh(cmd, **kw): return subprocess.run(cmd, shell=True, capture_output=True, text=True, **kw)
+stored = "/verif/seeded/" + name
+if not os.path.isdir(wt) and os.path.exists(stored + "/meta.json"):
+    # the worktree is gone (already confirmed earlier): only re-run the checks against the stored patch
+    meta = json.load(open(stored + "/meta.json"))
+    for p_ in (a.props or P).split(","):
+        m = sh("VERIF_EVIDENCE_DIR=/tmp/ev-seed /verif/tools/mutate.py %s --tier %s --patch %s/patch.diff" % (p_, a.tier, stored))
+        lines = [l for l in m.stdout.splitlines() if "KNOWN-FINDING" not in l]
+        meta["detection"][p_ + ":" + a.tier] = {"result": lines[0] if lines else "?", "first": [l.strip()[:220] for l in lines[1:4]]}
+        print(p_, lines[:2])
+    json.dump(meta, open(stored + "/meta.json", "w"), indent=1)
+    print("RECHECKED", stored)
+    sys.exit(0)
 res = {"property": P, "id": name}
 d = sh("git -C %s diff" % wt).stdout
 ok_diff = d.strip() == open(patch).read().strip()
